@@ -33,6 +33,11 @@ def generate(seed, tier):
         # taken there runs into the hand-over it interrupts
         return {"arm": "own-code", "line_pick": r.randrange(1000), "n": r.choice((1, 2, 3)),
                 "knobs": dict(common.draw_knobs(r, stall_p=0.0), trace_self=True)}
+    if r.random() < 0.05:
+        # arm "lives": the whole agent, started and shut down two or three times; in every life the application hits a
+        # snapshot tracepoint - what is handed over in any life is sent exactly once, in that life
+        return {"arm": "lives", "lives": r.choice((2, 2, 3)), "hits": [r.choice((1, 2, 3)) for _ in range(3)],
+                "knobs": dict(common.draw_knobs(r, stall_p=0.0), trace_self=False)}
     nthreads = r.choice((1, 1, 2, 3))
     sid = 0
     threads = []
@@ -66,6 +71,10 @@ def shrink_candidates(s):
     if s.get("arm") == "own-code":
         if s["n"] > 1:
             yield dict(s, n=s["n"] - 1)
+        return
+    if s.get("arm") == "lives":
+        if s["lives"] > 2:
+            yield dict(s, lives=2)
         return
     for ti, ops in enumerate(s["threads"]):
         for cand in common.drop_one(ops):
@@ -149,9 +158,60 @@ def _own_code(s, ch):
     return common.result(k, viol, key=repr(("own-code", info.get("line"), s["n"])))
 
 
+LIVES_SRC = "def work(i):\n    x = i * 2\n    return x\n"
+
+
+def _lives(s, ch):
+    from simkit import world, hostgen
+    viol = []
+    info = {"n": 0}
+
+    def main(k):
+        p = hostgen.start_program("simlives", prelude=False)
+        for ln in LIVES_SRC.strip("\n").split("\n"):
+            p.lines.append(ln)
+        p.finish()
+        w = world.World(k, python_plugin=False)
+        g = p.load()
+        w.service.set_config([w.service.make_tp("tpL", p.basename, 2, {"fire_count": "-1", "fire_period": "0"}, [])], "h1")
+        for life in range(s["lives"]):
+            if life:
+                k.fault("restart")
+            w.start()
+            common.wait_until(k, lambda: len(w.handler._tp_config) > 0, 60)
+            n0, r0 = len(w.pushed), len(w.service.snapshots)
+
+            def app(life=life):
+                for i in range(s["hits"][life]):
+                    g["work"](i)
+            t = shims.SimThread(target=app, name="app%d" % life)
+            t.start()
+            t.join()
+            common.wait_delivery(k, w, 60)
+            w.deep.shutdown()
+            pushed = [format(es.id, "032x") for (_, _, es) in w.pushed[n0:]]
+            got = [sn.ID.hex() for (_, _, sn, _) in w.service.snapshots[r0:]]
+            info["n"] += len(pushed)
+            if len(pushed) != s["hits"][life]:
+                viol.append(V("lives:not-handed-over", "life %d: %d hits, %d snapshots handed over" % (life + 1, s["hits"][life], len(pushed))))
+            for sid in pushed:
+                if got.count(sid) != 1:
+                    viol.append(V("lives:send-count:%d" % got.count(sid), "life %d of the agent: a snapshot handed over in this "
+                                  "life was received %d times before its shutdown returned (errors logged: %s)" % (
+                                      life + 1, got.count(sid), [r_[2] for r_ in w.logs.records if r_[0] == "ERROR"][:2])))
+                    break
+        w.close()
+
+    k = common.run_in_kernel(ch, s["knobs"], main)
+    k.probe("lives_snapshots", info["n"])
+    return common.result(k, viol, key=repr(("lives", s["lives"], s["hits"])))
+
+
 def execute(scenario, ch):
     if scenario.get("arm") == "own-code":
         return _own_code(scenario, ch)
+    if scenario.get("arm") == "lives":
+        return _lives(scenario, ch)
     hist = {"accept": {}, "flush": [], "convert": {}, "ran": {}, "post": {}}
     viol = []
 
